@@ -153,6 +153,7 @@ func TestWorker(t *testing.T) {
 				for _, k := range kf.Known {
 					if k.Property == propID {
 						known[k.Fingerprint] = true
+						KnownFingerprints[k.Fingerprint] = true
 					}
 				}
 			}
@@ -222,6 +223,12 @@ func TestWorker(t *testing.T) {
 				}
 				res.Harness = fmt.Sprintf("nondeterminism: seed %d run %d trace %x vs %x; differing streams:%s; decisions %d vs %d", seed, i, out.TraceHash, re.TraceHash, diff, len(out.Decisions), len(re.Decisions))
 				break
+			}
+		}
+		for fp, n := range out.KnownHits {
+			res.Known[fp] += n
+			if _, ok := res.KnownSeeds[fp]; !ok {
+				res.KnownSeeds[fp] = seed
 			}
 		}
 		if out.Viol != nil {
